@@ -1017,6 +1017,8 @@ def _c20_per_sig(ps, ctr):
 # ----------------------------------------------------------------------------- C19
 def c19(req, ra, ctr):
     from . import real_mod
+    if req[0].startswith('rt:'):
+        return rt_problems(req, ra)
     if req[0] != 'partialsig':
         return []
     _, n, kw, ps = req
